@@ -33,7 +33,7 @@ MECH_PATH = {
     "decl": "decl", "for-init": "decl", "assign": "assign", "compound": "compound", "incdec-var": "incdec-var",
     "incdec-elem": "incdec-elem1", "arg": "arg", "return": "return", "elem1": "elem1", "elem1-compound": "elem1-compound",
     "elemN": "elemN", "literal1": "lit1", "literalN": "litN", "global:scalar": "global-scalar", "global:array": "global-arr",
-    "static": "static", "from-elemN:decl": "decl", "from-elemN:assign": "assign-from-elemN", "from-elemN:return": "return",
+    "static": "static", "from-elemN:decl": "decl", "from-elemN:assign": "assign-from-elemN", "from-elemN:return": "return-from-elemN",
 }
 
 KINDS = ["min-1", "min", "min+1", "-1", "0", "1", "max-1", "max", "max+1", "rand-in", "rand-above", "rand-below"]
@@ -302,8 +302,8 @@ NARROW = ["tiny", "short", "int", "char", "utiny", "ushort", "uint", "ulong", "l
 
 def mixed_program(rng):
     """A straight-line program of 4-10 stores over 3-5 typed cells; every store is on a path on
-    which Mech refines Spec (declaration, assignment, compound assignment, argument, signed 1-D
-    element, global scalar); values are aimed at the limits of the target's type."""
+    which Mech refines Spec (declaration, assignment, compound assignment, ++/--, argument, signed 1-D and
+    multi-dimensional elements, global scalar); values are aimed at the limits of the target's type."""
     nvars = rng.randint(3, 5)
     G, F, M = [], [], []
     cells = []          # (id, type)
@@ -341,10 +341,11 @@ def mixed_program(rng):
     pv = fresh()
     F.append("(F 1 long ((%d %s)) ((ret (bin + (v %d) 0))))" % (pv, pt, pv))
     arr = None
-    if rng.random() < 0.6:
+    if rng.random() < 0.7:
         at = rng.choice(["tiny", "short", "int", "long"])
-        arr = (fresh(), at, rng.randint(2, 4))
-        M.append("(arr 0 %s %d (%d) ())" % (at, arr[0], arr[2]))
+        dims = [rng.randint(2, 4)] if rng.random() < 0.6 else [2, rng.randint(2, 3)]
+        arr = (fresh(), at, dims)
+        M.append("(arr 0 %s %d (%s) ())" % (at, arr[0], " ".join(map(str, dims))))
     for _ in range(nvars):
         t = rng.choice(NARROW)
         x = fresh()
@@ -362,17 +363,25 @@ def mixed_program(rng):
             fits = [c for c in cells if RANGES[c[1]][0] >= lo and RANGES[c[1]][1] <= hi]
             y, _ = rng.choice(fits if fits and rng.random() < 0.8 else cells)
             M.append("(asg (v %d) (v %d))" % (x, y))
-        elif k < 0.65:
+        elif k < 0.58:
             op = rng.choice(["+", "-", "*"])
             d = rng.choice([1, 1, 2, -1, -1, 3, 100, 255, 65535]) if op != "*" else rng.choice([1, 2, -1, -1, 3])
             M.append("(casg %s (v %d) %d)" % (op, x, d))
-        elif k < 0.8:
+        elif k < 0.70:
+            # ++/-- (range checked since fix 892a98c)
+            M.append("(incdec %d %d (v %d))" % (rng.randint(0, 1), rng.randint(0, 1), x))
+        elif k < 0.82:
             M.append("(asg (v %d) (call 1 %s))" % (carrier, lit(val(pt))))
             M.append(_readback(carrier))
         elif arr is not None:
-            i = rng.randrange(arr[2])
-            M.append("(asg (idx %d %d) %s)" % (arr[0], i, lit(val(arr[1]))))
-            M.append(_readback_elem(arr[0], [i]))
+            idx = [rng.randrange(n) for n in arr[2]]
+            if len(idx) == 1 and rng.random() < 0.35:
+                # a[i]++ / a[i]-- on a signed 1-D element (fix 1b2d709)
+                M.append("(incdec %d %d (idx %d %d))" % (rng.randint(0, 1), rng.randint(0, 1), arr[0], idx[0]))
+            else:
+                # element store, multi-dimensional ones included (fix a6c628c)
+                M.append("(asg (idx %d %s) %s)" % (arr[0], " ".join(map(str, idx)), lit(val(arr[1]))))
+            M.append(_readback_elem(arr[0], idx))
         else:
             M.append("(asg (v %d) (bin + (v %d) %d))" % (x, x, rng.choice([1, -1, 127, -128, 32767])))
         M.append(_readback(x))
